@@ -74,6 +74,15 @@ func cliLoop(dir, script string) *cliResult {
 			add("hcl-db-diff", "db0->db1: "+d1.Stdout+d1.Stderr+" ; db1->db0: "+d2.Stdout+d2.Stderr)
 		}
 	}
+	// the HCL export as a desired state normalised on a dev database (sql/internal/sqlx/dev.go)
+	if ap.Exit == 0 {
+		dev := "sqlite://dev?mode=memory"
+		v1 := clirun.Run(dir, nil, "schema", "diff", "--from", "file://s.hcl", "--to", "sqlite://db0", "--dev-url", dev)
+		v2 := clirun.Run(dir, nil, "schema", "diff", "--from", "sqlite://db0", "--to", "file://s.hcl", "--dev-url", dev)
+		if v1.Exit != 0 || v2.Exit != 0 || strings.TrimSpace(v1.Stdout) != synced || strings.TrimSpace(v2.Stdout) != synced {
+			add("hcl-db-diff", "dev-url: hcl->db0: "+v1.Stdout+v1.Stderr+" ; db0->hcl: "+v2.Stdout+v2.Stderr)
+		}
+	}
 	q1 := insp("--format", "{{ sql . }}")
 	if q1.Exit != 0 {
 		add("sql-plan-error", q1.Stderr)
@@ -93,6 +102,20 @@ func cliLoop(dir, script string) *cliResult {
 		d2 := clirun.Run(dir, nil, "schema", "diff", "--from", "sqlite://db2", "--to", "sqlite://db0")
 		if d1.Exit != 0 || d2.Exit != 0 || strings.TrimSpace(d1.Stdout) != synced || strings.TrimSpace(d2.Stdout) != synced {
 			add("sql-diff", "db0->db2: "+d1.Stdout+d1.Stderr+" ; db2->db0: "+d2.Stdout+d2.Stderr)
+		}
+	}
+	// ... and the SQL export applied by the CLI itself (desired state = SQL file, replayed on a dev database)
+	if err == nil {
+		os.WriteFile(filepath.Join(dir, "s.sql"), []byte(q1.Stdout), 0o644)
+		a3 := clirun.Run(dir, nil, "schema", "apply", "--url", "sqlite://db3", "--to", "file://s.sql", "--dev-url", "sqlite://dev?mode=memory", "--auto-approve")
+		if a3.Exit != 0 {
+			add("sql-exec-error", "schema apply --to file://s.sql: "+a3.Stderr+" "+a3.Stdout)
+		} else {
+			d1 := clirun.Run(dir, nil, "schema", "diff", "--from", "sqlite://db0", "--to", "sqlite://db3")
+			d2 := clirun.Run(dir, nil, "schema", "diff", "--from", "sqlite://db3", "--to", "sqlite://db0")
+			if d1.Exit != 0 || d2.Exit != 0 || strings.TrimSpace(d1.Stdout) != synced || strings.TrimSpace(d2.Stdout) != synced {
+				add("sql-diff", "via schema apply: db0->db3: "+d1.Stdout+d1.Stderr+" ; db3->db0: "+d2.Stdout+d2.Stderr)
+			}
 		}
 	}
 	return r
